@@ -360,6 +360,40 @@ Example C08_ex_sts :
 Proof. repeat split; reflexivity. Qed.
 Print Assumptions C08_dispatch_from_source.
 
+(* the model is additionally tied to the source by TRANSLATION: the Gallina
+   definitions that harness/cmd/genkstatus generates on this run from core.go
+   (and util.go, generic.go, status.go; Generated/KStatusSrc.v, one per Go
+   function, syntax-directed) compute what the model's kind rules compute, on
+   all trees, all integer field values and both clock values; calling the
+   dispatch-table entry of a key is the model's rule for that key.
+   `to_outcome` maps a ( *Result, error ) pair to the model's outcome.  So the
+   characterisations above hold of the generated rules, and a changed
+   comparison, a dropped check, a reordered precedence, a changed default or
+   field path in core.go breaks this obligation. *)
+From CliUtils Require Model.KStatusSrcLib Generated.KStatusSrc Proofs.KStatusSrcAgree.
+
+Theorem C08_source_translation_agrees : forall (j : jv) (w : bool),
+  KStatusSrcLib.to_outcome (KStatusSrc.deploymentConditions j) = Some (deployment_conditions j) /\
+  KStatusSrcLib.to_outcome (KStatusSrc.stsConditions j) = Some (sts_conditions j) /\
+  KStatusSrcLib.to_outcome (KStatusSrc.replicasetConditions j) = Some (replicaset_conditions j) /\
+  KStatusSrcLib.to_outcome (KStatusSrc.daemonsetConditions j) = Some (daemonset_conditions j) /\
+  KStatusSrcLib.to_outcome (KStatusSrc.podConditions j w) = Some (pod_conditions j w) /\
+  KStatusSrcLib.to_outcome (KStatusSrc.jobConditions j) = Some (job_conditions j) /\
+  KStatusSrcLib.to_outcome (KStatusSrc.pvcConditions j) = Some (pvc_conditions j) /\
+  KStatusSrcLib.to_outcome (KStatusSrc.serviceConditions j) = Some (service_conditions j) /\
+  KStatusSrcLib.to_outcome (KStatusSrc.crdConditions j) = Some (crd_conditions j) /\
+  KStatusSrcLib.to_outcome (KStatusSrc.pdbConditions j) = Some pdb_conditions /\
+  KStatusSrcLib.to_outcome (KStatusSrc.alwaysReady j) = Some always_ready /\
+  (forall key, match KStatusSrcLib.assoc key src_legacy_types, legacy_of_key key with
+               | Some fn, Some k =>
+                   KStatusSrcLib.to_outcome (KStatusSrc.call_GetConditionsFn (Some fn) j w) = Some (legacy_fn k j w)
+               | None, None => True
+               | _, _ => False
+               end) /\
+  KStatusSrcLib.to_outcome (KStatusSrc.Compute j w) = Some (compute j w).
+Proof. exact KStatusSrcAgree.src_kind_rules_agree. Qed.
+Print Assumptions C08_source_translation_agrees.
+
 (* ==== At the status readers ===================================================
    statusreaders.NewDefaultStatusReader (Model/KStatusReader.v) reports Current
    only when status.Compute reports Current for the object itself: no reader
